@@ -162,11 +162,9 @@ def no_zero_shift(ctx, rule):
     return
   for c in calls:
     off = norm_text(c.args[1])
-    st = c
-    pm = U.parents(fn)
-    while not isinstance(st, ast.stmt):
-      st = pm[id(st)]
-    conds = [(t, p) for t, p in U.path_conditions(fn, st) if off in norm_text(t)]
+    from sa import pitfalls
+    # statement-level path conditions and the expression-level guards around the call (conditional expression, and / or, filters)
+    conds = [(t, p) for t, p in pitfalls.guards_at(fn, c) if off in norm_text(t)]
     r = scenario.tv_all(conds, scenario.subst_of([(off, '0')])) if conds else True
     if r is False:
       ctx.ob(rule, fi, c, True, 'the call is unreachable with %s == 0' % off, construct=cons)
